@@ -111,6 +111,12 @@ def run(ctx, idx):
                 ctx.hold("C07.d", con, d.module.rel, R.line_of(s_), "shape of the inputs, missing wherever an input is")
     check_validate(ctx, idx, "C07.b")
     check_validate_callers(ctx, idx, "C07.b")
+    # the specific errors can be printed: placeholders and arguments of their messages agree (C13.d's reading, for the three
+    # errors this property names - an error that raises KeyError while it is rendered ends the command-line tool in a traceback)
+    from .C13 import str_methods_total
+
+    n_str = str_methods_total(ctx, idx, "C07.b", only={"MismatchedWeights", "MixedArrayShapes", "EmptyInputs"}, floor=False)
+    ctx.floor("C07.b", "messages of the specific arithmetic errors", n_str, 3)
     for name in ("WeightedSum", "WeightedMean"):
         weights_gate(ctx, idx, "C07.b", *res[name])
     for name in ("ADividedByB", "Mean", "WeightedMean"):
@@ -127,6 +133,10 @@ def run(ctx, idx):
             ctx.violate("C07.c", con, d.module.rel, d.execute.node.lineno, "%s performs no array division at all" % name)
             continue
         for rec in divs:
+            if name == "WeightedMean" and isinstance(rec[2], Scal) and rec[2].sym and "|" in rec[2].sym and "sum(" in rec[2].sym:
+                # the divisor is the weight sum on one path and something else on another (`sum(w) or 1`, a conditional default)
+                ctx.violate("C07.c", con, d.module.rel, rec[0], "`%s` does not divide by the weight sum itself: the divisor is replaced when the sum is zero, so weights that cancel out return the plain weighted sum as ordinary numbers instead of missing cells (division by zero yields a missing cell)" % K.src(rec[3])[:60])
+                continue
             ok = any(isinstance(x, Arr) and x.kind == "masked" for x in rec[1:3]) and not isinstance(rec[3], ast.AugAssign) or (isinstance(rec[3], ast.AugAssign) and isinstance(rec[1], Arr) and rec[1].kind == "masked")
             if not ok:
                 # the quotient of the raw data, with every non-finite cell (x/0 -> inf, 0/0 -> nan) masked afterwards and returned as that
